@@ -115,9 +115,15 @@ func init() {
 				w = globDepWF(c)
 			} else {
 				w = Generate(c.Tape, tierProfile(profC04, c.Tier))
-				// (first: it changes path names, on which the taggers' decisions depend)
+				// (first: these change path names, on which the taggers' decisions depend)
 				if HideParams(c.Tape, w) {
 					c.Probe("gofunc-with-hidden-params")
+				}
+				if NumericParams(c.Tape, w) {
+					c.Probe("numeric-parameter-values")
+				}
+				if len(CmdSources(c.Tape, w)) > 0 {
+					c.Probe("command-to-params-source")
 				}
 				AddTagArgs(c.Tape, w) // some commands receive tag values ({t:port.key})
 			}
@@ -356,6 +362,63 @@ func pickRunTo(t *simrt.Tape, w *WF) {
 }
 
 var _ = fmt.Sprint
+
+// NumericParams: some FromStr parameter streams get numeric values - whole
+// numbers, or decimal fractions that need all the precision of a float64 - which
+// the builder then feeds through FromInt / FromFloat.
+func NumericParams(t *simrt.Tape, w *WF) bool {
+	any := false
+	for i := range w.Nodes {
+		n := &w.Nodes[i]
+		if n.Kind != KProc {
+			continue
+		}
+		for k := range n.Params {
+			p := &n.Params[k]
+			if p.From != nil || len(p.Vals) == 0 || t.Choose(simrt.StGen, 4, 0) != 1 {
+				continue
+			}
+			ints := t.Choose(simrt.StGen, 2, 0) == 1
+			for j := range p.Vals {
+				if ints {
+					p.Vals[j] = fmt.Sprint(7 + 13*j + 100*k)
+				} else {
+					p.Vals[j] = fmt.Sprintf("%d.%08d", 2+k, 1+j) // 2.00000001, 2.00000002, ...
+				}
+			}
+			any = true
+		}
+	}
+	return any
+}
+
+// CmdSources: some ParamSource nodes become CommandToParams components that
+// print the same values (one echo per value).
+func CmdSources(t *simrt.Tape, w *WF) map[string]string {
+	out := map[string]string{}
+	for i := range w.Nodes {
+		n := &w.Nodes[i]
+		if n.Kind != KParamSrc || t.Choose(simrt.StGen, 2, 0) != 1 {
+			continue
+		}
+		var cmds []string
+		for _, v := range n.Vals {
+			cmds = append(cmds, "echo "+v)
+		}
+		cmds = append(cmds, ": "+n.Name)
+		n.Kind = KCmdToParams
+		n.FilePath = strings.Join(cmds, " && ")
+		out[n.Name] = n.FilePath
+		for j := range w.Nodes {
+			for k := range w.Nodes[j].Params {
+				if f := w.Nodes[j].Params[k].From; f != nil && f.Node == i {
+					f.Port = "param"
+				}
+			}
+		}
+	}
+	return out
+}
 
 // HideParams: some Go-function nodes with an in-port get their parameters only
 // through task.Param (ports made with InParam, no placeholder anywhere), and
